@@ -28,6 +28,9 @@ GOENV = {
     "GOSUMDB": "off",
     "GOTOOLCHAIN": "local",
     "CGO_ENABLED": "0",
+    # the harness processes hold many in-memory stores; a soft limit keeps the Go heap near its live size instead of
+    # twice that (several checks may run side by side on one machine)
+    "GOMEMLIMIT": "3GiB",
 }
 
 FORBIDDEN = re.compile(
